@@ -3,7 +3,7 @@ from props.farm_common import explore_farm, replay_farm
 
 ASSUMPTIONS = ["A-VM", "farm_position_migration_nonce at its default (no pre-migration positions)",
                "boosted payout of claim/exit derived from the observed change of the boosted pools",
-               "farm-with-locked-rewards and farm-staking share the base functions modelled here; their own histories are covered by C12 (staking) and the correspondence of the shared modules"]
+               "farm-with-locked-rewards histories are explored here too (tools/sys_farm_locked.py, Model/FarmLocked.v); farm-staking shares the base functions, its money flow is C12 and its index C06"]
 RULE = ("stateful mostly-valid generator over enter (with merge), claim, compound, exit (partial), merge, claimBoosted, "
         "position transfers, energy changes, admin rate/percentage/factors/pause changes, top-ups and block/epoch/week "
         "advances (tools/sys_farm.py); DSC in {1,10,1e6,1e12,1e18}; non-trivial = successful user operation with a boosted "
@@ -65,8 +65,15 @@ def corpus():
 
 
 def explore(tier, seed, model_ok=True, focus=False):
-    return explore_farm("C05", tier, seed, monitor, nontrivial, RULE, model_ok, focus, corpus=corpus())
+    """dex/farm histories, then farm-with-locked-rewards histories (same farm modules, rewards paid as locked tokens)"""
+    from props.farm_locked_common import explore_locked, merge_into, corpus_locked, monitors_c05_with_lock, nontrivial_c05
+    ex = explore_farm("C05", tier, seed, monitor, nontrivial, RULE, model_ok, focus, corpus=corpus())
+    ex2 = explore_locked("C05", tier, seed, monitors_c05_with_lock, nontrivial_c05, RULE, model_ok, focus, scale=0.5, corpus=corpus_locked("C05"))
+    return merge_into(ex, ex2)
 
 
 def replay(data):
+    if data.get("replay", {}).get("system") == "farm-locked":
+        from props.farm_locked_common import replay_locked, monitors_c05_with_lock
+        return replay_locked(data, monitors_c05_with_lock)
     return replay_farm(data, monitor)
